@@ -58,26 +58,26 @@ pub fn prop_num(p: &str) -> u64 {
 pub fn budget(prop: &str, tier: Tier) -> (u64, u64) {
     let q = tier == Tier::Quick;
     match prop {
-        "C01" => if q { (40_000, 40) } else { (2_000_000, 420) },
-        "C02" => if q { (40_000, 40) } else { (2_000_000, 420) },
-        "C03" => if q { (30_000, 40) } else { (1_000_000, 420) },
-        "C04" => if q { (40_000, 40) } else { (1_500_000, 420) },
-        "C05" => if q { (30_000, 40) } else { (1_000_000, 420) },
-        "C06" => if q { (30_000, 40) } else { (1_000_000, 420) },
-        "C07" => if q { (50_000, 40) } else { (3_000_000, 420) },
-        "C08" => if q { (20_000, 40) } else { (1_000_000, 420) },
-        "C09" => if q { (20_000, 40) } else { (1_000_000, 420) },
-        "C10" => if q { (30_000, 40) } else { (1_000_000, 420) },
-        "C11" => if q { (30_000, 40) } else { (1_000_000, 420) },
-        "C12" => if q { (60_000, 45) } else { (3_000_000, 480) },
-        "C13" => if q { (12, 45) } else { (200, 480) },
-        "C14" => if q { (crate::run2::c14_enumeration_cases() + 1_500, 60) } else { (crate::run2::c14_enumeration_cases() + 150_000, 480) },
-        "C15" => if q { (30_000, 40) } else { (1_000_000, 420) },
-        "C16" => if q { (2_000, 40) } else { (100_000, 420) },
-        "C17" => if q { (400, 45) } else { (20_000, 480) },
-        "C18" => if q { (20_000, 45) } else { (1_000_000, 480) },
-        "C19" => if q { (5_000, 40) } else { (200_000, 420) },
-        "C20" => if q { (1_000, 45) } else { (100_000, 480) },
+        "C01" => if q { (300_000, 50) } else { (4_000_000, 420) },
+        "C02" => if q { (400_000, 50) } else { (4_000_000, 420) },
+        "C03" => if q { (300_000, 50) } else { (4_000_000, 420) },
+        "C04" => if q { (400_000, 50) } else { (1_500_000, 420) },
+        "C05" => if q { (300_000, 50) } else { (4_000_000, 420) },
+        "C06" => if q { (300_000, 50) } else { (4_000_000, 420) },
+        "C07" => if q { (800_000, 50) } else { (4_000_000, 420) },
+        "C08" => if q { (200_000, 50) } else { (3_000_000, 420) },
+        "C09" => if q { (300_000, 50) } else { (4_000_000, 420) },
+        "C10" => if q { (60_000, 50) } else { (1_500_000, 420) },
+        "C11" => if q { (60_000, 50) } else { (1_500_000, 420) },
+        "C12" => if q { (600_000, 50) } else { (4_000_000, 300) },
+        "C13" => if q { (256, 50) } else { (2_560, 420) },
+        "C14" => if q { (crate::run2::c14_enumeration_cases() + 3_000, 60) } else { (crate::run2::c14_enumeration_cases() + 150_000, 420) },
+        "C15" => if q { (250_000, 50) } else { (3_000_000, 420) },
+        "C16" => if q { (24_000, 50) } else { (100_000, 420) },
+        "C17" => if q { (2_400, 50) } else { (40_000, 240) },
+        "C18" => if q { (60_000, 50) } else { (1_000_000, 420) },
+        "C19" => if q { (300_000, 50) } else { (2_000_000, 420) },
+        "C20" => if q { (1_600, 50) } else { (100_000, 420) },
         _ => (1000, 30),
     }
 }
@@ -114,7 +114,7 @@ pub fn gen_case(prop: &str, tier: Tier, seed: u64, idx: u64) -> Option<Case> {
             if r.chance(1, 4) {
                 let big = r.chance(1, 6);
                 let (h, side) = gen_frag_history(r, &FragOpts { big, ..Default::default() });
-                Case::Frag { h, side: Side { av1: side, vp9: None } }
+                Case::Frag { h, side: Side { av1: side, vp9: None, op: 0 } }
             } else {
                 let mut o = GenOpts { hostile_pct: 6, reorder_pct: 30, audio_pct: 60, meta_pct: 60, encode_pct: 10, finish_games: r.chance(1, 5), ..Default::default() };
                 o.big_frames = r.chance(1, 8);
@@ -144,7 +144,7 @@ pub fn gen_case(prop: &str, tier: Tier, seed: u64, idx: u64) -> Option<Case> {
         "C05" => {
             if r.chance(1, 5) {
                 let (h, side) = gen_frag_history(r, &FragOpts { bad_dts_pct: 30, constant_interval_pct: 0, ..Default::default() });
-                Case::Frag { h, side: Side { av1: side, vp9: None } }
+                Case::Frag { h, side: Side { av1: side, vp9: None, op: 0 } }
             } else {
                 let o = GenOpts { hostile_pct: 40, reorder_pct: 30, audio_pct: 75, meta_pct: 5, encode_pct: 20, finish_games: r.chance(1, 4), consuming: false, max_video: 10, max_audio: 12, ..Default::default() };
                 hist_case(gen_history(r, &o))
@@ -172,7 +172,7 @@ pub fn gen_case(prop: &str, tier: Tier, seed: u64, idx: u64) -> Option<Case> {
         "C10" | "C11" => {
             let o = FragOpts { big: r.chance(1, 8), constant_interval_pct: if prop == "C11" { 45 } else { 15 }, max_ops: if thorough && r.chance(1, 100) { 1500 } else { 50 }, ..Default::default() };
             let (h, side) = gen_frag_history(r, &o);
-            Case::Frag { h, side: Side { av1: side, vp9: None } }
+            Case::Frag { h, side: Side { av1: side, vp9: None, op: 0 } }
         }
         _ => return crate::run2::gen_case2(prop, tier, seed, idx, r),
     })
@@ -184,7 +184,7 @@ fn mon_c07_case(r: &mut Rng) -> Case {
     if r.chance(1, 4) {
         let (mut h, side) = gen_frag_history(r, &FragOpts { max_ops: 3, ..Default::default() });
         h.ops = vec![FOp::Init];
-        return Case::Frag { h, side: Side { av1: side, vp9: None } };
+        return Case::Frag { h, side: Side { av1: side, vp9: None, op: 0 } };
     }
     let o = GenOpts { audio_pct: 70, meta_pct: 10, hostile_cfg_pct: 0, ..Default::default() };
     let mut cfg = crate::gen::hist::gen_cfg(r, &o);
@@ -212,7 +212,24 @@ fn mon_c07_case(r: &mut Rng) -> Case {
         }
         c => video_frame(r, c, FrameKind::KeyCfg, body, true),
     };
-    let mut ops = vec![Op::wv(0.0, data, true)];
+    // sometimes the real first keyframe is preceded by rejected attempts that carry OTHER
+    // parameter sets: nothing of them may end up in the configuration record
+    let mut ops: Vec<Op> = Vec::new();
+    if r.chance(1, 3) {
+        for _ in 0..r.range(1, 2) {
+            let other = video_frame(r, cfg.vcodec, FrameKind::KeyCfg, 9, false);
+            ops.push(match r.below(6) {
+                0 => Op::wv(0.0, other, false),
+                1 => Op::wv(f64::NAN, other, true),
+                2 => Op::wv(-1.0, other, true),
+                3 => Op::wvd(30_000.0, 0.0, other, true),
+                4 => Op::wvd(0.0, 30_000.0, other, true),
+                _ => Op::wvd(0.0, f64::INFINITY, other, true),
+            });
+        }
+    }
+    side.op = ops.len();
+    ops.push(Op::wv(0.0, data, true));
     // a later keyframe with different parameter sets must not replace the configuration
     if r.chance(1, 3) {
         let d2 = video_frame(r, cfg.vcodec, FrameKind::KeyCfg, 8, false);
@@ -236,7 +253,20 @@ pub fn eval_case(prop: &str, case: &Case, obs: &mut Obs) -> Vec<Violation> {
     obs.evaluations += 1;
     match (prop, case) {
         ("C01", Case::Hist { h, .. }) | ("C15", Case::Hist { h, .. }) | ("C03", Case::Hist { h, .. }) | ("C06", Case::Hist { h, .. }) | ("C09", Case::Hist { h, .. }) => {
-            let (ex, sink) = run(h, &ExecOpts::default());
+            // C06: a fifth of the runs use a sink that shortens / interrupts writes without failing
+            let fault = if prop == "C06" {
+                match h.hash() % 10 {
+                    0 => crate::sink::Fault::OneByte,
+                    1 => crate::sink::Fault::Schedule { seed: h.hash(), max_chunk: 7, interrupt_pct: 20 },
+                    _ => crate::sink::Fault::None,
+                }
+            } else {
+                crate::sink::Fault::None
+            };
+            if !matches!(fault, crate::sink::Fault::None) {
+                obs.count("runs_with_short_writing_sink", 1);
+            }
+            let (ex, sink) = crate::exec::run_fault(h, &ExecOpts::default(), fault);
             if ex.any_panic() {
                 obs.inconclusive += 1;
                 obs.count("histories_ending_in_panic(C12's business)", 1);
